@@ -302,3 +302,98 @@ func openedTarget14(mh *ast.FuncDecl) string {
 	}
 	return tgt
 }
+
+// hasOpenAssign14 tells whether a function body itself assigns the result of an OpenConnection call.
+func hasOpenAssign14(fd *ast.FuncDecl) bool {
+	found := false
+	if fd != nil && fd.Body != nil {
+		ast.Inspect(fd.Body, func(n ast.Node) bool {
+			as, ok := n.(*ast.AssignStmt)
+			if ok && len(as.Rhs) == 1 && len(as.Lhs) >= 1 && strings.HasSuffix(callName(as.Rhs[0]), ".OpenConnection") {
+				found = true
+			}
+			return !found
+		})
+	}
+	return found
+}
+
+// openerOf14 returns the function that opens the target connection on behalf of mh: mh itself, or a function or
+// method of the package that mh calls (directly or through one more such call) and whose body assigns the result of
+// OpenConnection.  The binding maps the names of that function's parameters and receiver to the text of what mh
+// passed, so that `ch.ended` in a helper is recognised as the handler's `ch.ended`.  When no such function is found
+// mh itself is returned (the facts then read as "not there").
+func openerOf14(mh *ast.FuncDecl, idx map[string]*ast.FuncDecl) (*ast.FuncDecl, bind14) {
+	if mh == nil || mh.Body == nil {
+		return mh, bind14{}
+	}
+	var walk func(fd *ast.FuncDecl, b bind14, depth int, seen map[*ast.FuncDecl]bool) (*ast.FuncDecl, bind14)
+	walk = func(fd *ast.FuncDecl, b bind14, depth int, seen map[*ast.FuncDecl]bool) (*ast.FuncDecl, bind14) {
+		if hasOpenAssign14(fd) {
+			return fd, b
+		}
+		if depth >= 2 {
+			return nil, nil
+		}
+		var rf *ast.FuncDecl
+		var rb bind14
+		ast.Inspect(fd.Body, func(n ast.Node) bool {
+			if rf != nil {
+				return false
+			}
+			c, ok := n.(*ast.CallExpr)
+			if !ok {
+				return true
+			}
+			if callee := resolveCall14(idx, c, fd); callee != nil && !seen[callee] {
+				seen[callee] = true
+				rf, rb = walk(callee, bindCall14(b, c, callee), depth+1, seen)
+			}
+			return true
+		})
+		return rf, rb
+	}
+	if fd, b := walk(mh, bind14{}, 0, map[*ast.FuncDecl]bool{mh: true}); fd != nil {
+		return fd, b
+	}
+	return mh, bind14{}
+}
+
+// closesIn14 tells whether the body of fd (closures and deferred calls included, goroutines it starts not) closes the object named tgt (a name
+// as seen from the function the walk started in): through TryClose/LogClose, through tgt.Close(), or in a function or
+// method of the package that is handed tgt (two levels).
+func closesIn14(fd *ast.FuncDecl, b bind14, tgt string, idx map[string]*ast.FuncDecl, depth int) bool {
+	closes := false
+	if fd == nil || fd.Body == nil {
+		return false
+	}
+	ast.Inspect(fd.Body, func(n ast.Node) bool {
+		if _, isGo := n.(*ast.GoStmt); isGo {
+			// a close on another goroutine (the watcher that waits for the session to end) is not the handler closing
+			// its target when the copy is over
+			return false
+		}
+		c, ok := n.(*ast.CallExpr)
+		if !ok || closes {
+			return !closes
+		}
+		fn := src(c.Fun)
+		if (strings.HasSuffix(fn, "TryClose") || strings.HasSuffix(fn, "LogClose")) && len(c.Args) == 1 && b.of(src(c.Args[0])) == tgt {
+			closes = true
+		} else if strings.HasSuffix(fn, ".Close") && len(c.Args) == 0 && b.of(strings.TrimSuffix(fn, ".Close")) == tgt {
+			closes = true
+		} else if callee := resolveCall14(idx, c, fd); callee != nil && depth < 2 {
+			passes := false
+			for _, a := range c.Args {
+				if b.of(src(a)) == tgt {
+					passes = true
+				}
+			}
+			if passes && closesIn14(callee, bindCall14(b, c, callee), tgt, idx, depth+1) {
+				closes = true
+			}
+		}
+		return true
+	})
+	return closes
+}
